@@ -31,7 +31,9 @@ const c03Rule = "rapid-generated DSL-expressible models (0-4 types, 0-4 relation
 func c03Check(in layoutInput) (string, string, *gen.Rendered) {
 	r := in.render()
 	g := repoGrammar()
-	if !g4.DerivableStrict(g, r.Text) {
+	// "Layout the grammar allows" = the documented pre-pass (comment lines blanked, trailing " #..." cut, trailing blanks
+	// and tabs and final newlines removed) followed by derivability from OpenFGAParser.g4.
+	if !g4.DerivableLenient(g, r.Text) {
 		return "", fmt.Sprintf("renderer produced a document the grammar does not derive:\n%q", r.Text), r
 	}
 	want := expectedFromAST(in.Model, in.Module, in.Extend)
